@@ -29,10 +29,21 @@ def run_stream(ctx, stream, cases, impl, line, oracle, nontrivial, shrinks=None,
     the model (or None to skip the model);  oracle(case, obs) -> [(key, what)];
     expect(case, obs, model_out) -> (impl_view, model_view) to compare (default: obs vs out)."""
     pid = ctx.pid
+    raw_impl = impl
+
+    def impl(c):
+        # an exception the harness does not expect from the implementation is an observation
+        # (reported below), not a crash of the check
+        try:
+            return raw_impl(c)
+        except Exception as e:
+            import traceback
+            return {"impl_raised": type(e).__name__, "msg": str(e)[:200], "where": traceback.format_exc()[-600:]}
+
     obs = [impl(c) for c in cases]
     reqs, idx = [], []
     for i, (c, o) in enumerate(zip(cases, obs)):
-        l = line(c, o)
+        l = line(c, o) if "impl_raised" not in o else None
         if l is not None:
             reqs.append("%s %s" % (pid, json.dumps(l, separators=(",", ":"))))
             idx.append(i)
@@ -48,6 +59,12 @@ def run_stream(ctx, stream, cases, impl, line, oracle, nontrivial, shrinks=None,
         return a != b
 
     for i, (c, o) in enumerate(zip(cases, obs)):
+        if "impl_raised" in o:
+            ctx.count(stream, c, True)
+            key = "unexpected-exception:%s" % o["impl_raised"]
+            if not any(k == key for k, _, _ in ctx.violations):
+                ctx.violation(key, "the implementation raised %s (%s) where the property allows no such error\n%s" % (o["impl_raised"], o["msg"], o["where"]), c)
+            continue
         ctx.count(stream, c, nontrivial(c, o))
         vs = oracle(c, o)
         for key, what in vs:
@@ -55,7 +72,10 @@ def run_stream(ctx, stream, cases, impl, line, oracle, nontrivial, shrinks=None,
             if any(k == key for k, _, _ in ctx.violations):
                 continue
             if shrinks:
-                cc = shrink(c, shrinks, lambda x: any(k == key for k, _ in oracle(x, impl(x))))
+                def still(x, key=key):
+                    ox = impl(x)
+                    return "impl_raised" not in ox and any(k == key for k, _ in oracle(x, ox))
+                cc = shrink(c, shrinks, still)
             ctx.violation(key, what, cc)
         if i in model and differs(c, o, model[i]):
             cc, oo, mm = c, o, model[i]
@@ -64,7 +84,7 @@ def run_stream(ctx, stream, cases, impl, line, oracle, nontrivial, shrinks=None,
             if shrinks and len(ctx.disagreements) < 2:
                 def bad(x):
                     ox = impl(x)
-                    return differs(x, ox, one_model(x, ox))
+                    return "impl_raised" not in ox and differs(x, ox, one_model(x, ox))
                 cc = shrink(c, shrinks, bad, budget=60)
                 oo = impl(cc)
                 mm = one_model(cc, oo)
